@@ -206,6 +206,17 @@ def run_property(prop, tier, seed):
             del eng.obligations[z3_before:]
             eng.cur_root_target_inline = None
             eng.cur_inline_callees = ()
+        except (KeyError, AttributeError, IndexError, TypeError, ValueError) as e:
+            # a contract clause refers to something (a local variable, a field, an event) that the code under check no
+            # longer has: the contract does not attach to this version of the function -> undecided for this root,
+            # never a violation and never a crash of the whole check
+            tb = traceback.extract_tb(e.__traceback__)
+            where = '; '.join(f'{os.path.basename(f.filename)}:{f.lineno}' for f in tb[-3:])
+            out_of_reach.append({'function': target, 'reason': f'contract clause cannot be evaluated on this version of the code '
+                                                                f'({type(e).__name__}: {str(e)[:120]} at {where})'})
+            del eng.obligations[z3_before:]
+            eng.cur_root_target_inline = None
+            eng.cur_inline_callees = ()
         finally:
             eng.ieee_checks = ieee_default
     # lemmas
